@@ -114,12 +114,14 @@ def resize (w : Nat) (a : Ann) : Ann := if a.ex then a else { a with w := w }
 
 /-- the enforcer walk (`enter` + `generic_visit`): leaves (Number, FreeVar, LoopVar, TmpVar, signal
     Attribute) are mutated; an Index node is mutated but not entered; an IfExp node enters body and
-    orelse (not the condition) and is then mutated; every other node is entered and left as it is -/
+    orelse (not the condition) and is then mutated; a BinOp that was folded to a constant (`_value` set; only an
+    implicitly sized BinOp is folded) is entered and then mutated like a literal (fix 0e3882f); every other node is
+    entered and left as it is -/
 def enforce (w : Nat) : AT → AT
   | .leaf a => .leaf (resize w a)
   | .idx a k => .idx (resize w a) k
   | .n1 a k => .n1 a (enforce w k)
-  | .n2 a k1 k2 => .n2 a (enforce w k1) (enforce w k2)
+  | .n2 a k1 k2 => .n2 (if a.val.isSome then resize w a else a) (enforce w k1) (enforce w k2)
   | .ite a c t f => .ite (resize w a) c (enforce w t) (enforce w f)
 
 inductive TErr where
